@@ -309,7 +309,7 @@ def check_tight(case, net, info):
     if out:
         return out
     # lift the limits, repeat
-    sd.config.update({k: v for k, v in families_defaults().items()})
+    sd.config.update(default_limits())
     sd, r2 = run_step(sd, step)
     if not (r2 is True or (case["op"] == "build" and r2 is None)):  # build() returns nothing; it completes unless it raises
         out.append(fail("resume_incomplete", "the repeated run with relaxed limits completes", f"{step} after {cfg}", observed=r2, expected=True))
@@ -323,7 +323,7 @@ def check_tight(case, net, info):
     return out
 
 
-def families_defaults():
+def default_limits():
     from biobalm import SuccessionDiagram
 
     d = SuccessionDiagram.default_config()
